@@ -370,7 +370,22 @@ def execute(case):
         collect(y)
   collect(json.loads(doc))
   obs['policy_consulted'] = syms <= set(policy.import_calls)
-  return obs, None
+  # model correspondence: the document's `objects` table, read by an independent reader, against
+  # Model/Rebuild.lean's table for the same configuration (and against loading that table again)
+  from harness import codeparse, docread
+  from harness.props import C07
+  req = None
+  try:
+    heap_doc, root_doc = docread.Reader(doc).read()
+    enc_req, _enc = graphs.encode(v, with_defaults=False, atom_pred=codeparse.leaf_atom_pred)
+    obs['m_doc'] = codeparse.canon_heap(heap_doc, root_doc)
+    obs['m_input'] = codeparse.canon_heap([C07.project_obj(o) for o in enc_req['objs']], enc_req['root'])
+    req = {'p': 'graph', 'objs': enc_req['objs'], 'root': enc_req['root'], 'q': ['rebuild']}
+  except docread.Unreadable as e:
+    obs['m_unsupported'] = str(e)[:100]
+  except Exception as e:
+    obs['m_unsupported'] = f'reader: {type(e).__name__}: {e}'[:100]
+  return obs, req
 
 
 def normal_doc(d):
@@ -404,6 +419,20 @@ def compare(real, model):
     m = drv.ask({'p': 'serialize', 'bytes': list(b)})
     if m['text'] != text or m['back'] != list(b):
       diffs.append(('codec', 'bytes', [text, list(b)], [m['text'], m['back']]))
+  if model is not None and 'm_doc' in real:
+    from harness import codeparse
+    rb = model.get('rebuild')
+    if not isinstance(rb, dict):
+      diffs.append(('rebuild', 'model', 'ok', rb))
+    else:
+      got = codeparse.canon_heap(rb['heap'], rb['root'])
+      if got != real['m_doc']:
+        diffs.append(('objects table of the real document vs Model/Rebuild', 'table', real['m_doc'], got))
+      if real['m_doc'] != real['m_input']:
+        diffs.append(('objects table of the real document vs the dumped configuration', 'table', real['m_doc'], real['m_input']))
+      rl = rb.get('reload')
+      if not isinstance(rl, dict) or codeparse.canon_heap(rl['heap'], rl['root']) != got:
+        diffs.append(('loading the table again (straightLine.run)', 'reload', got, rl if not isinstance(rl, dict) else codeparse.canon_heap(rl['heap'], rl['root'])))
   if 'policy_doc' in real:
     m = drv.ask({'p': 'serialize', 'doc': real['policy_doc'], 'table': real['policy_table']})
     loaded = real['tampered_load'] == 'returned'
